@@ -76,6 +76,13 @@ def gen(rng, tier, index):
     plan["target_across_switch"] = bool(rng.random() < 0.4)
     if mode not in ("identity", "identity_copy"):
         sw["inplace"] = bool(rng.random() < 0.3)
+        if rng.random() < 0.2:
+            m2 = str(choice(rng, ["reweight", "arbitrary"]))
+            sw["second"] = {"mode": m2, "at": sw["at"] + int(rng.integers(1, 4)), "seed": int(rng.integers(0, 2**31 - 1)), "inplace": bool(rng.random() < 0.3)}
+            if m2 == "reweight":
+                sw["second"].update(lam=float(10.0 ** rng.uniform(-2, 1)), reg=str(choice(rng, ["l2", "cos"])))
+            else:
+                sw["second"].update(frac=float(rng.uniform(0.2, 0.9)), touch_newest=bool(rng.random() < 0.5))
         if rng.random() < 0.15:
             # the rewrite happens at the start-up call of a restart (history restored from a checkpoint)
             plan["restart_at"] = int(rng.integers(2, 8))
@@ -107,7 +114,18 @@ def switched_problem(problem, sw):
 def make_rewriter(problem, sw, info):
     """The fault: returns what World.rewrite answers at update call ``sw['at']``."""
 
+    second = sw.get("second")
+
     def rewriter(act, j, rec, x, f0, f0_old, grad, X, G):
+        if second is not None and j == second["at"] and info.get("fired"):
+            # a second redefinition later in the same run (same oracles: provenance, curvature, live matrices)
+            info2 = {"fired": False}
+            out = make_rewriter(act.problem, second, info2)(act, j, rec, x, f0, f0_old, grad, X, G)
+            if info2["fired"]:
+                info["second_fired"] = True
+                info["pending_matrix_check"] = True
+                info["second_event"] = rec["event"]
+            return out
         if j != sw["at"]:
             return f0, f0_old, grad, G
         rec["mode"] = sw["mode"]
@@ -382,6 +400,7 @@ def execute(plan):
         stats["nj.switch_not_reached"] += 1
         return {"violations": viol, "stats": stats, "keys": keys, "digest": A.event_digest(), "shape": {"mode": sw["mode"], "fired": False}}
     stats["fault.rewrite." + sw["mode"]] += 1
+    stats["fault.second_rewrite"] += 1 if info.get("second_fired") else 0
     # the termination report must be true of the NEW objective (C04's oracle on a rewritten run)
     if c.get("ftarget") is not None:
         from . import c04
